@@ -8,7 +8,7 @@ from ..core import rxmodel
 from ..core.loader import AnalysisError
 from ..core.table import extract, grid_compare
 from ..core.termeval import ev, Raised, CannotEval
-from ..core.values import K, T, Obj, ExtRef, show
+from ..core.values import K, T, Obj, ExtRef, AbsFunc, show
 
 MOD = 'netutils'
 LIB_RAISES = ['netaddr.AddrFormatError', 'ValueError', 'TypeError']
@@ -251,6 +251,48 @@ def run(ctx):
                      {addr: grid}, oracle, hooks=HOOKS, value_eq=truthy_eq)
     _mac(ctx)
     _ranges(ctx)
+    _history(ctx)
+
+
+def _history(ctx):
+    """A validator's answer does not depend on what was validated before
+    (by this or by a sibling validator)."""
+    from ..core.table import history_compare
+    rep, world = ctx.report, ctx.world
+    rep.rule('R11.4', 'validators keep no state: the answer for a value is '
+             'the same whatever was validated before')
+    fn = {n: world.func(MOD, n) for n in (
+        'is_valid_ipv4', 'is_valid_ip', 'is_valid_ipv6', 'is_valid_cidr',
+        'is_valid_mac', 'is_valid_port')}
+
+    def pair(first, fargs, fkw, second, sargs, skw):
+        def prepare(interp):
+            # one callable taking (which, *args): both calls go through it
+            def run(i2, a, kw):
+                which = a[0].v
+                return i2.call(fn[which], list(a[1:]), kw)
+            return AbsFunc('validators', run)
+        history_compare(
+            rep, 'R11.4', 'validators[after an earlier call]', world,
+            prepare, ([K(first)] + [K(x) for x in fargs],
+                      {k: K(v) for k, v in fkw.items()}),
+            ([K(second)] + [K(x) for x in sargs],
+             {k: K(v) for k, v in skw.items()}), setup=_setup({}),
+            label='%s%r then %s%r' % (first, tuple(fargs) + tuple(
+                fkw.items()), second, tuple(sargs) + tuple(skw.items())))
+    pair('is_valid_ip', ['10.1'], {}, 'is_valid_ipv4', ['10.1'],
+         {'strict': True})
+    pair('is_valid_ipv4', ['10.1'], {'strict': False}, 'is_valid_ipv4',
+         ['10.1'], {'strict': True})
+    pair('is_valid_ipv4', ['10.1'], {'strict': True}, 'is_valid_ipv4',
+         ['10.1'], {'strict': False})
+    pair('is_valid_ipv4', ['1.2.3.4'], {}, 'is_valid_ipv6', ['1.2.3.4'], {})
+    pair('is_valid_ipv6', ['::1'], {}, 'is_valid_ip', ['::1%'], {})
+    pair('is_valid_cidr', ['10.0.0.0/8'], {}, 'is_valid_cidr',
+         ['10.0.0.0/8 '], {})
+    pair('is_valid_mac', ['AA:BB:CC:DD:EE:FF'], {}, 'is_valid_mac',
+         ['aa:bb:cc:dd:ee:fg'], {})
+    pair('is_valid_port', ['80'], {}, 'is_valid_port', [80.5], {})
 
 
 def _aton_only(s):
@@ -294,7 +336,14 @@ def _mac(ctx):
                                 '52:54:00:cf:2d:\ufb00', 'AA:BB:CC:DD:EE:\ufb00',
                                 '\uff21A:bb:cc:dd:ee:ff',
                                 'aa:bb:cc:dd:ee:f\u0131', 'aa:bb:cc:dd:ee:\u0661f',
-                                'aa:bb:cc:dd:ee:ff\n')),
+                                'aa:bb:cc:dd:ee:ff\n',
+                                # spellings int(x, 16) tolerates
+                                '+1:bb:cc:dd:ee:ff', 'aa:-0:cc:dd:ee:ff',
+                                'aa:bb: c:dd:ee:ff', 'aa:bb:c :dd:ee:ff',
+                                'aa:bb:cc:\u0661\u0662:ee:ff',
+                                'aa:bb:cc:dd:0x:ff', 'aa:bb:cc:dd:ee:1_',
+                                'aa:bb:cc:dd:ee:_1', '\tb:bb:cc:dd:ee:ff',
+                                'aa:bb:cc:dd:ee:f\u0666')),
                        ('other', (None, 5, b'aa:bb:cc:dd:ee:ff',
                                   ['aa:bb:cc:dd:ee:ff']))):
         def thunk(interp):
@@ -306,7 +355,7 @@ def _mac(ctx):
             return NotImplemented
 
         def setup(interp):
-            rxmodel.install(interp)
+            _setup({})(interp)
             inner = interp.on_call
 
             def hook(i, name, fv, args, kwargs):
